@@ -122,7 +122,10 @@ Definition run_0301 (input impl : sx) : sx :=
      (b) a stream the specification calls bad (Model/RecvSpec.v: C12 path/order/parent
          specification, hard link to a path not sent before, content for an id no regular STAT
          announced) makes Receive fail, and no path first named at or after the offending
-         packet has been created or altered. *)
+         packet has been created or altered;
+     (c) content for an id whose transfer has already ended (a DATA packet, with or without bytes,
+         after the id's terminator - Model/RecvSpec.v spec_late) makes Receive fail, and what the
+         destination stores under the path of the id holds nothing sent after the terminator. *)
 Record rawent := {
   re_path : bytes; re_ino : N; re_nlink : N; re_type : N; re_perm : N; re_uid : N; re_gid : N;
   re_mtime : N; re_ctime : N; re_rdev : N; re_target : bytes; re_xattrs : sx; re_content : bytes }.
@@ -287,7 +290,34 @@ Definition run_0302_opt (ops : list sx) (dest : bytes) (pks : list sx) (mg : N) 
                         | Some b => (N.eqb cls 1 || N.eqb cls 3) && not_applied destreal packets b before after
                         end in
         let ran := N.leb cls 3 in
-        let code := (if contained then 0 else 1) + (if rejected then 0 else 2) + (if ran then 0 else 4) in
+        (* (c) content for an id whose transfer has already ended (Model/RecvSpec.v spec_late): Receive
+           fails, and what the destination stores under the path of the id holds nothing that was
+           sent after the terminator: it is a prefix of what was sent before it, or the bytes the
+           path had before the run, or no regular file at all.  Not looked at when an earlier
+           packet is already bad by (b). *)
+        let late := match spec_late_opt mo packets, bad with
+                    | Some (b, p, pre), Some b' => if Nat.leb b' b then None else Some (b, p, pre)
+                    | x, None => x
+                    | None, _ => None
+                    end in
+        let late_fail := match late with None => true | Some _ => N.eqb cls 1 || N.eqb cls 3 end in
+        let late_bytes := match late with
+                          | None => true
+                          | Some (_, p, pre) =>
+                            let q := child_path destreal p in
+                            match find_raw q after with
+                            | None => true
+                            | Some ea =>
+                              negb (N.eqb (re_type ea) 32768) || has_prefix (re_content ea) pre
+                              || match find_raw q before with
+                                 | Some eb => N.eqb (re_type eb) 32768 && bytes_eqb (re_content eb) (re_content ea)
+                                 | None => false
+                                 end
+                            end
+                          end in
+        let late_ok := late_fail && late_bytes in
+        let code := (if contained then 0 else 1) + (if rejected then 0 else 2) + (if ran then 0 else 4)
+                    + (if late_ok then 0 else 8) in
         (* known finding filter-rejected-hardlink-source: with a Filter that rejects a subtree the
            hard-link validator still records the rejected entries, so a transferred hard link may
            name a source the disk writer skipped; link(2) then resolves dest/<Linkname> through
@@ -313,7 +343,8 @@ Definition run_0302_opt (ops : list sx) (dest : bytes) (pks : list sx) (mg : N) 
                            && sx_eqb (outside_view destreal (shared ++ linked) before) (outside_view destreal (shared ++ linked) after)
                    then [SL [SB [115; 105; 103]; SB sig_filter_link]]
                    else [] in
-        verdict model implv (contained && rejected && ran) (SL (SN code :: of_optnat bad :: sig))
+        verdict model implv (contained && rejected && ran && late_ok)
+                (SL (SN code :: of_optnat bad :: of_optnat (option_map (fun x => fst (fst x)) late) :: sig))
       | _, _ => v_malformed
       end
     | _, _, _, _ => v_malformed
